@@ -1,23 +1,27 @@
-/* C42: tagged data (event_tagging.c) on real small evbuffers (buffer.c, 64-byte chains).
+/* C42 (real-evbuffer half): event_tagging.c over the REAL buffer.c (64-byte chains, env/evbuf_alloc.h).
  *
- * Two entry points, selected/parameterised by -D defines (props/C42.py):
+ * Why this is not simply harness/C42_tagmodel.c with buffer.c underneath (measured, DESIGN 3.4): an evbuffer
+ * operation with a symbolic size makes every later offset symbolic (one symbolic pullup = 37 s), and a state
+ * merge behind a data-dependent `return -1` of a decoder leaves an if-then-else heap on which the NEXT
+ * evbuffer call does not finish (two decoding stages in a row: > 120 s even with concrete sizes).  Hence:
+ *  - the sizes event_tagging.c passes to buffer.c are data dependent; the harness splits the inputs into SIZE
+ *    CLASSES (encoded size of the tag / of each integer / payload length, position of the chain split), runs
+ *    the scenario once per class with the class's sizes published as concrete PREDICTIONS, and the wrappers
+ *    below call the real buffer.c function with the predicted constant after ASSERTING that it equals the
+ *    requested size.  Which class applies, and every value inside it, is decided by the solver;
+ *  - only the routines with a single decoding stage are run here: encoders/marshallers (adds only; the wire
+ *    bytes are compared with the reference encoding), evtag_decode_tag, evtag_peek, decode_int_internal /
+ *    decode_int64_internal (the routine behind every integer decoder; offsets 0 and VP_OFF), and
+ *    evtag_decode_int/int64 on single-chain buffers.  The multi-stage unmarshallers are covered over the
+ *    evbuffer contract model (C42_tagmodel.c).
  *
- * harness_roundtrip   RT=RT_*   every value of the marshalled item is solver-chosen; the wire
- *     bytes must equal the reference encoding (ref/tag_ref.h), the peek functions must
- *     report it without consuming, and the matching unmarshal/decode must return the same
- *     tag, length and value and leave the buffer empty ("read back in order": VP_PRE
- *     concrete bytes are stored before the item and drained before decoding, so that the
- *     item straddles a chain boundary and decoders have to pull up across chains).
- *
- * harness_decode      DEC=DEC_*  an arbitrary byte string of solver-chosen length L <= VP_L,
- *     split at a solver-chosen position into two EXACT-SIZE user arrays referenced by two
- *     evbuffer_add_reference chains (so cbmc's pointer checks see the real end of the
- *     data: DESIGN 3.3), handed to one decoder.  Success => the reference parser accepts
- *     the same bytes as exactly one item with the same values, exactly that item was
- *     consumed (length and remaining bytes), peekers consume nothing.  Any read outside
- *     the two arrays is a cbmc pointer-check failure.
- *     KF_EXCLUDE_TAG6 / KF_ONLY_TAG6: predicate-guarded pair for the decode_tag_internal
- *     over-read (first chain ends exactly after five continuation bytes).
+ * harness_roundtrip  RT=RT_*, VP_PRE (bytes stored before the item, drained before it is read: the item then
+ *                    straddles the boundary of the first 16-byte chain), VP_ENC_ONLY, VP_LEAF_INTERNAL
+ * harness_decode     DEC=DEC_*, VP_WL = concrete length of the arbitrary byte string (the driver enumerates
+ *                    0..L), split position solver-chosen: the bytes live in two EXACT-SIZE user arrays
+ *                    referenced by two evbuffer_add_reference chains, so cbmc's pointer checks see the real end
+ *                    of the data (DESIGN 3.3).  VP_SINGLE: one chain only.
+ *                    KF_EXCLUDE_TAG6 / KF_ONLY_TAG6: predicate-guarded pair for the decode_tag_internal over-read.
  */
 #include "vp.h"
 #include "log_stub.h"
@@ -29,51 +33,34 @@
 #include "evbuf_link.h"
 #include "evbuf_inv.h"
 
-/* ---- size concretisation between event_tagging.c and buffer.c (DESIGN 3.4: an evbuffer operation whose size argument is
- * symbolic makes every later offset symbolic).  The sizes event_tagging.c passes are data dependent; the harness splits
- * the inputs into classes in which they are known, publishes the class's sizes as CONCRETE candidates, and these wrappers
- * call the real buffer.c function with the candidate that EQUALS the requested size -- checked: a request outside the
- * candidate set is an assertion failure, so nothing is assumed about the library. ---- */
-#define VP_NCAND 6
-static size_t vp_cand[VP_NCAND]; static int vp_ncand;
-static void vp_cands(size_t a, size_t b, size_t c, size_t d, size_t e, size_t f, int n)
-{ vp_cand[0] = a; vp_cand[1] = b; vp_cand[2] = c; vp_cand[3] = d; vp_cand[4] = e; vp_cand[5] = f; vp_ncand = n; }
-static unsigned char *vp_t_pullup(struct evbuffer *b, ev_ssize_t n)
+/* Cuts WITH proof (props: --replace-calls): no buffer of this harness holds multicast or file-segment chains and no
+ * evbuffer is freed, so the only callers of these two are infeasible branches of evbuffer_chain_free that symex cannot
+ * prune by itself.  The replacement asserts that it is never reached. */
+void vp_cut_decref(struct evbuffer *b) { (void)b; VP_ASSERT(0, "harness: evbuffer_decref_and_unlock_ reached (no multicast chain and no evbuffer_free in this harness)"); __CPROVER_assume(0); }
+void vp_cut_segfree(struct evbuffer_file_segment *s) { (void)s; VP_ASSERT(0, "harness: evbuffer_file_segment_free reached (no file segment in this harness)"); __CPROVER_assume(0); }
+
+/* ---- size predictions: per kind of call, in call order ---- */
+#define VP_NPRED 4
+struct vp_pred { size_t v[VP_NPRED]; int n, i; };
+static struct vp_pred vp_p_pullup, vp_p_drain, vp_p_add, vp_p_remove;
+static void vp_predict(struct vp_pred *p, int n, size_t a, size_t b, size_t c, size_t d)
+{ p->v[0] = a; p->v[1] = b; p->v[2] = c; p->v[3] = d; p->n = n; p->i = 0; }
+/* the i-th call of this kind in the current class asks for exactly the i-th predicted size (asserted) */
+static size_t vp_conc(struct vp_pred *p, size_t n)
 {
-	int c;
-	for (c = 0; c < VP_NCAND; c++)
-		if (c < vp_ncand && (size_t)n == vp_cand[c]) return evbuffer_pullup(b, (ev_ssize_t)vp_cand[c]);
-	VP_ASSERT(0, "harness: evbuffer_pullup size outside the predicted class sizes");
-	__CPROVER_assume(0);
-	return NULL;
+	size_t k;
+	VP_ASSERT(p->i < p->n, "harness: more evbuffer calls than predicted for this size class");
+	__CPROVER_assume(p->i < p->n);
+	k = p->v[p->i];
+	VP_ASSERT(n == k, "harness: evbuffer call size differs from the size predicted for this class");
+	__CPROVER_assume(n == k);
+	p->i++;
+	return k;
 }
-static int vp_t_drain(struct evbuffer *b, size_t n)
-{
-	int c;
-	for (c = 0; c < VP_NCAND; c++)
-		if (c < vp_ncand && n == vp_cand[c]) return evbuffer_drain(b, vp_cand[c]);
-	VP_ASSERT(0, "harness: evbuffer_drain size outside the predicted class sizes");
-	__CPROVER_assume(0);
-	return -1;
-}
-static int vp_t_add(struct evbuffer *b, const void *d, size_t n)
-{
-	int c;
-	for (c = 0; c < VP_NCAND; c++)
-		if (c < vp_ncand && n == vp_cand[c]) return evbuffer_add(b, d, vp_cand[c]);
-	VP_ASSERT(0, "harness: evbuffer_add size outside the predicted class sizes");
-	__CPROVER_assume(0);
-	return -1;
-}
-static int vp_t_remove(struct evbuffer *b, void *d, size_t n)
-{
-	int c;
-	for (c = 0; c < VP_NCAND; c++)
-		if (c < vp_ncand && n == vp_cand[c]) return evbuffer_remove(b, d, vp_cand[c]);
-	VP_ASSERT(0, "harness: evbuffer_remove size outside the predicted class sizes");
-	__CPROVER_assume(0);
-	return -1;
-}
+static unsigned char *vp_t_pullup(struct evbuffer *b, ev_ssize_t n) { return evbuffer_pullup(b, (ev_ssize_t)vp_conc(&vp_p_pullup, (size_t)n)); }
+static int vp_t_drain(struct evbuffer *b, size_t n) { return evbuffer_drain(b, vp_conc(&vp_p_drain, n)); }
+static int vp_t_add(struct evbuffer *b, const void *d, size_t n) { return evbuffer_add(b, d, vp_conc(&vp_p_add, n)); }
+static int vp_t_remove(struct evbuffer *b, void *d, size_t n) { return evbuffer_remove(b, d, vp_conc(&vp_p_remove, n)); }
 #ifdef VP_CBMC
 #define evbuffer_pullup vp_t_pullup
 #define evbuffer_drain vp_t_drain
@@ -87,254 +74,94 @@ static int vp_t_remove(struct evbuffer *b, void *d, size_t n)
 #undef evbuffer_remove
 #include "tag_ref.h"
 
-enum { RT_INT = 1, RT_INT64, RT_TAG, RT_MINT, RT_MINT64, RT_TIMEVAL, RT_STRING, RT_RAW, RT_FIXED, RT_CONSUME, RT_BUFFER, RT_SEQ, RT_WRONGTAG };
-enum { DEC_INT = 1, DEC_INT64, DEC_TAG, DEC_PEEK, DEC_PEEK_LENGTH, DEC_PAYLOAD_LENGTH, DEC_HEADER, DEC_CONSUME, DEC_UNMARSHAL,
-       DEC_UINT, DEC_UINT64, DEC_FIXED, DEC_STRING, DEC_TIMEVAL };
-
-#ifndef VP_PRE
-#define VP_PRE 0
-#endif
-#ifndef VP_STR
-#define VP_STR 4          /* longest string / raw payload in the round trips */
-#endif
-#ifndef VP_L
-#define VP_L 12           /* longest arbitrary byte string */
-#endif
-#define EXP_MAX 40
-
-/* Cuts WITH proof (props: --replace-calls): no buffer of this harness holds multicast or file-segment chains and no
- * evbuffer is freed, so the only callers of these two are infeasible branches of evbuffer_chain_free that symex cannot
- * prune by itself (flags are symbolic after a merge).  The replacement asserts that it is never reached. */
-void vp_cut_decref(struct evbuffer *b) { (void)b; VP_ASSERT(0, "harness: evbuffer_decref_and_unlock_ reached (no multicast chain and no evbuffer_free in this harness)"); __CPROVER_assume(0); }
-void vp_cut_segfree(struct evbuffer_file_segment *s) { (void)s; VP_ASSERT(0, "harness: evbuffer_file_segment_free reached (no file segment in this harness)"); __CPROVER_assume(0); }
-
 static struct evbuffer *B;
-static unsigned char vp_exp[EXP_MAX]; static size_t vp_explen;
+#define TB_BYTE(b, i)    vp_evb_byte((b), (i))
+#define TB_CHECK(b)      vp_evb_check((b), "")
+#define TB_ADD(b, p, n)  evbuffer_add((b), (p), (n))
+#define TB_DRAIN(b, n)   evbuffer_drain((b), (n))
+static struct evbuffer *tb_new(void) { struct evbuffer *b = evbuffer_new(); __CPROVER_assume(b != NULL); return b; }
+#include "C42_common.h"
 
-static void mkbuf(void)
-{
-	B = evbuffer_new();
-	__CPROVER_assume(B != NULL);
-#if VP_PRE
-	{
-		unsigned char junk[VP_PRE];
-		vp_bytes(junk, VP_PRE);
-		__CPROVER_assume(evbuffer_add(B, junk, VP_PRE) == 0);
-	}
-#endif
-}
-/* the item's bytes on the wire == reference encoding (every position: one solver-chosen index) */
-static void check_wire(const char *unused)
-{
-	size_t i;
-	(void)unused;
-	vp_evb_check(B, "");
-	VP_ASSERT(evbuffer_get_length(B) == VP_PRE + vp_explen, "C42: marshalled item has a different length than the wire format prescribes");
-	i = vp_size();
-	if (i < vp_explen)
-		VP_ASSERT(vp_evb_byte(B, VP_PRE + i) == vp_exp[i], "C42: marshalled bytes differ from the wire format");
-#if VP_PRE
-	/* the earlier item is read first */
-	__CPROVER_assume(evbuffer_drain(B, VP_PRE) == 0);
-#endif
-}
-static void exp_tag(ev_uint32_t t) { vp_explen += (size_t)tagref_enc_tag(vp_exp + vp_explen, t); }
-static void exp_int(ev_uint64_t v) { vp_explen += (size_t)tagref_enc_int(vp_exp + vp_explen, v); }
-static void exp_bytes(const unsigned char *p, size_t n) { size_t i; for (i = 0; i < VP_STR; i++) if (i < n) vp_exp[vp_explen + i] = p[i]; vp_explen += n; }
-static void check_empty(void)
-{
-	vp_evb_check(B, "");
-	VP_ASSERT(evbuffer_get_length(B) == 0, "C42: unmarshalling did not consume exactly the marshalled item");
-}
+#define KF_TAG6 (WL >= 6 && (W[0] & 0x80) && (W[1] & 0x80) && (W[2] & 0x80) && (W[3] & 0x80) && (W[4] & 0x80) && (W[4] & 0x7f) <= 15)
 
 #ifdef RT
 void harness_roundtrip(void)
 {
-	mkbuf();
-#if RT == RT_INT
-	{
-		ev_uint32_t v = vp_u32(), o = 0;
-		evtag_encode_int(B, v);
-		exp_int(v); check_wire("");
-		VP_ASSERT(evtag_decode_int(&o, B) == 0, "C42: evtag_decode_int rejects an encoded integer");
-		VP_ASSERT(o == v, "C42: 32-bit integer changed by encode/decode");
-		check_empty();
-	}
-#elif RT == RT_INT64
-	{
-		ev_uint64_t v = vp_u64(), o = 0;
-		evtag_encode_int64(B, v);
-		exp_int(v); check_wire("");
-		VP_ASSERT(evtag_decode_int64(&o, B) == 0, "C42: evtag_decode_int64 rejects an encoded integer");
-		VP_ASSERT(o == v, "C42: 64-bit integer changed by encode/decode");
-		check_empty();
+	int a, c, d;
+	(void)a; (void)c; (void)d;
+	rt_draw();
+#if RT == RT_INT || RT == RT_INT64
+	for (c = 1; c <= 9; c++) {
+		if (g_lc != c) continue;
+		B = tb_new();
+		vp_predict(&vp_p_add, 1, (size_t)c, 0, 0, 0);
+		vp_predict(&vp_p_pullup, 2, 1, (size_t)c, 0, 0);
+		vp_predict(&vp_p_drain, 1, (size_t)c, 0, 0, 0);
+		rt_run(0);
+		return;
 	}
 #elif RT == RT_TAG
-	{
-		ev_uint32_t t = vp_u32(), o = 0, o2 = 0; int n, m;
-		n = evtag_encode_tag(B, t);
-		exp_tag(t);
-		VP_ASSERT(n == (int)vp_explen, "C42: evtag_encode_tag returns the number of bytes of the encoded tag");
-		VP_ASSERT(evtag_encode_tag(NULL, t) == n, "C42: evtag_encode_tag(NULL) reports the same size");
-		check_wire("");
-		m = evtag_peek(B, &o2);
-		VP_ASSERT(m == n && o2 == t, "C42: evtag_peek does not report the encoded tag");
-		VP_ASSERT(evbuffer_get_length(B) == (size_t)n, "C42: evtag_peek consumed data");
-		m = evtag_decode_tag(&o, B);
-		VP_ASSERT(m == n, "C42: evtag_decode_tag does not return the encoded size");
-		VP_ASSERT(o == t, "C42: tag changed by encode/decode");
-		check_empty();
+	for (a = 1; a <= 5; a++) {
+		if (g_la != a) continue;
+		B = tb_new();
+		vp_predict(&vp_p_add, 1, (size_t)a, 0, 0, 0);
+		vp_predict(&vp_p_pullup, 2, (size_t)a, (size_t)a, 0, 0);      /* evtag_peek, evtag_decode_tag */
+		vp_predict(&vp_p_drain, 1, (size_t)a, 0, 0, 0);
+		rt_run(0);
+		return;
 	}
-#elif RT == RT_MINT || RT == RT_WRONGTAG
-	{
-		ev_uint32_t t = vp_u32(), v = vp_u32(), o = 0, pl = 0, tl = 0; int r, il;
-		unsigned char tmp[9];
-		evtag_marshal_int(B, t, v);
-		il = tagref_enc_int(tmp, v);
-		exp_tag(t); exp_int((ev_uint64_t)il); exp_int(v); check_wire("");
-#if RT == RT_WRONGTAG
-		{
-			ev_uint32_t other = vp_u32();
-			__CPROVER_assume(other != t);
-			VP_ASSERT(evtag_unmarshal_int(B, other, &o) == -1, "C42: evtag_unmarshal_int accepted an item with a different tag");
-			VP_WITNESS("C42 wrong tag refused");
-			return;
-		}
+#else
+#ifndef VP_ENC_ONLY
+#error "multi-stage unmarshallers run over the contract model (C42_tagmodel.c); here: -DVP_ENC_ONLY"
 #endif
-		VP_ASSERT(evtag_payload_length(B, &pl) == 0 && pl == (ev_uint32_t)il, "C42: evtag_payload_length does not report the payload length");
-		VP_ASSERT(evtag_peek_length(B, &tl) == 0 && tl == vp_explen, "C42: evtag_peek_length does not report the total item length");
-		VP_ASSERT(evbuffer_get_length(B) == vp_explen, "C42: length peekers consumed data");
-		r = evtag_unmarshal_int(B, t, &o);
-		VP_ASSERT(r != -1, "C42: evtag_unmarshal_int rejects a marshalled integer");
-		VP_ASSERT(o == v, "C42: 32-bit integer changed by marshal/unmarshal");
-		check_empty();
-	}
+	/* Tag (a bytes) Length (1 byte: payloads here are < 16 bytes) Data (c [+ d] bytes) */
+#if RT == RT_MINT
+#define C_LO 1
+#define C_HI 5
 #elif RT == RT_MINT64
-	{
-		ev_uint32_t t = vp_u32(); ev_uint64_t v = vp_u64(), o = 0; int r, il;
-		unsigned char tmp[9];
-		evtag_marshal_int64(B, t, v);
-		il = tagref_enc_int(tmp, v);
-		exp_tag(t); exp_int((ev_uint64_t)il); exp_int(v); check_wire("");
-		r = evtag_unmarshal_int64(B, t, &o);
-		VP_ASSERT(r != -1, "C42: evtag_unmarshal_int64 rejects a marshalled integer");
-		VP_ASSERT(o == v, "C42: 64-bit integer changed by marshal/unmarshal");
-		check_empty();
-	}
+#define C_LO 1
+#define C_HI 9
 #elif RT == RT_TIMEVAL
-	{
-		ev_uint32_t t = vp_u32(); struct timeval tv, o; int r; unsigned char tmp[9]; int l1, l2;
-		tv.tv_sec = (time_t)vp_u64(); tv.tv_usec = (suseconds_t)vp_u64();
-#ifdef KF_ONLY_TV32
-		__CPROVER_assume(tv.tv_usec >= 0 && tv.tv_usec < 1000000);
-		__CPROVER_assume(!(tv.tv_sec >= 0 && (ev_uint64_t)tv.tv_sec <= 0xffffffffULL));
+#define C_LO 1
+#define C_HI 5
 #else
-		/* the wire format carries two unsigned 32-bit integers */
-		__CPROVER_assume(tv.tv_sec >= 0 && (ev_uint64_t)tv.tv_sec <= 0xffffffffULL);
-		__CPROVER_assume(tv.tv_usec >= 0 && tv.tv_usec < 1000000);
+#define C_LO 0
+#define C_HI VP_STR
 #endif
-		o.tv_sec = -1; o.tv_usec = -1;
-		evtag_marshal_timeval(B, t, &tv);
-#ifndef KF_ONLY_TV32
-		l1 = tagref_enc_int(tmp, (ev_uint64_t)tv.tv_sec); l2 = tagref_enc_int(tmp, (ev_uint64_t)tv.tv_usec);
-		exp_tag(t); exp_int((ev_uint64_t)(l1 + l2)); exp_int((ev_uint64_t)tv.tv_sec); exp_int((ev_uint64_t)tv.tv_usec); check_wire("");
+#if RT == RT_TIMEVAL
+#define D_LO 1
+#define D_HI 3          /* tv_usec < 10^6 < 16^5: at most 5 nibbles = 3 bytes */
 #else
-		(void)tmp; (void)l1; (void)l2;
+#define D_LO 0
+#define D_HI 0
 #endif
-		r = evtag_unmarshal_timeval(B, t, &o);
-		VP_ASSERT(r == 0, "C42: evtag_unmarshal_timeval rejects a marshalled timeval");
-		VP_ASSERT(o.tv_sec == tv.tv_sec && o.tv_usec == tv.tv_usec, "C42: timeval changed by marshal/unmarshal");
-		check_empty();
-	}
-#elif RT == RT_STRING
-	{
-		ev_uint32_t t = vp_u32(); char s[VP_STR + 1], *o = NULL; size_t n = vp_range(0, VP_STR), i; int r;
-		vp_bytes(s, VP_STR);
-		for (i = 0; i < VP_STR; i++) if (i < n) __CPROVER_assume(s[i] != 0);
-		s[n] = 0;
-		evtag_marshal_string(B, t, s);
-		exp_tag(t); exp_int(n); exp_bytes((unsigned char *)s, n); check_wire("");
-		r = evtag_unmarshal_string(B, t, &o);
-		VP_ASSERT(r == 0 && o != NULL, "C42: evtag_unmarshal_string rejects a marshalled string");
-		i = vp_size();
-		if (i <= n) VP_ASSERT(o[i] == s[i], "C42: string changed by marshal/unmarshal");
-		mm_free(o);
-		check_empty();
-	}
-#elif RT == RT_RAW || RT == RT_FIXED || RT == RT_CONSUME || RT == RT_BUFFER
-	{
-		ev_uint32_t t = vp_u32(), o = 0; unsigned char d[VP_STR], out[VP_STR]; size_t n = vp_range(0, VP_STR), i; int r;
-		vp_bytes(d, VP_STR);
+	for (a = 1; a <= 5; a++) {
+		if (g_la != a) continue;
+#ifdef VP_A             /* encoded tag size enumerated by the driver */
+		if (a != VP_A) { __CPROVER_assume(0); }
+#endif
+		for (c = C_LO; c <= C_HI; c++) {
+			if (g_lc != c) continue;
+			for (d = D_LO; d <= D_HI; d++) {
+				if (g_ld != d) continue;
+				B = tb_new();
 #if RT == RT_BUFFER
-		{
-			struct evbuffer *src = evbuffer_new();
-			__CPROVER_assume(src != NULL);
-			__CPROVER_assume(evbuffer_add(src, d, n) == 0);
-			evtag_marshal_buffer(B, t, src);
-			VP_ASSERT(evbuffer_get_length(src) == 0, "C42: evtag_marshal_buffer moves the data out of the source buffer");
+				vp_predict(&vp_p_add, 2, (size_t)a, 1, 0, 0);         /* the payload is moved by evbuffer_add_buffer */
+#else
+				vp_predict(&vp_p_add, 3, (size_t)a, 1, (size_t)(c + d), 0);
+#endif
+				rt_run((size_t)c);
+				return;
+			}
 		}
-#else
-		evtag_marshal(B, t, d, (ev_uint32_t)n);
-#endif
-		exp_tag(t); exp_int(n); exp_bytes(d, n); check_wire("");
-#if RT == RT_FIXED
-		r = evtag_unmarshal_fixed(B, t, out, n);
-		VP_ASSERT(r == 0, "C42: evtag_unmarshal_fixed rejects a marshalled item of the requested length");
-		i = vp_size();
-		if (i < n) VP_ASSERT(out[i] == d[i], "C42: raw data changed by marshal/unmarshal_fixed");
-		(void)o;
-#elif RT == RT_CONSUME
-		r = evtag_consume(B);
-		VP_ASSERT(r == 0, "C42: evtag_consume rejects a marshalled item");
-		(void)o; (void)out; (void)i;
-#else
-		{
-			struct evbuffer *dst = evbuffer_new();
-			__CPROVER_assume(dst != NULL);
-			r = evtag_unmarshal(B, &o, dst);
-			VP_ASSERT(r == (int)n, "C42: evtag_unmarshal does not return the marshalled length");
-			VP_ASSERT(o == t, "C42: tag changed by marshal/unmarshal");
-			VP_ASSERT(evbuffer_get_length(dst) == n, "C42: evtag_unmarshal delivered a different number of bytes");
-			i = vp_size();
-			if (i < n) VP_ASSERT(vp_evb_byte(dst, i) == d[i], "C42: raw data changed by marshal/unmarshal");
-			(void)out;
-		}
-#endif
-		check_empty();
 	}
-#elif RT == RT_SEQ
-	{
-		/* two items, read back in order */
-		ev_uint32_t t1 = vp_u32(), t2 = vp_u32(), v = vp_u32(), o = 0; char s[VP_STR + 1], *os = NULL; size_t n = vp_range(0, VP_STR), i; int r;
-		vp_bytes(s, VP_STR);
-		for (i = 0; i < VP_STR; i++) if (i < n) __CPROVER_assume(s[i] != 0);
-		s[n] = 0;
-		evtag_marshal_int(B, t1, v);
-		evtag_marshal_string(B, t2, s);
-#if VP_PRE
-		__CPROVER_assume(evbuffer_drain(B, VP_PRE) == 0);
 #endif
-		r = evtag_unmarshal_int(B, t1, &o);
-		VP_ASSERT(r != -1 && o == v, "C42: first of two items not returned unchanged");
-		r = evtag_unmarshal_string(B, t2, &os);
-		VP_ASSERT(r == 0 && os != NULL, "C42: second of two items rejected");
-		i = vp_size();
-		if (i <= n) VP_ASSERT(os[i] == s[i], "C42: second of two items not returned unchanged");
-		mm_free(os);
-		check_empty();
-	}
-#else
-#error "unknown RT"
-#endif
-#if RT != RT_WRONGTAG
-	VP_WITNESS("C42 round trip completed");
-#endif
+	VP_ASSERT(0, "harness: input outside every size class");
 }
-#endif /* RT */
+#endif
 
-/* ------------------------------------------------------------------------------------ */
-/* an object of EXACTLY k bytes (k <= 12): literal-size allocations, so that cbmc (and ASan
- * in native replay) see the real end of the data whatever split the solver picks */
+#ifdef DEC
+/* an object of EXACTLY k bytes (1 <= k <= 16), literal allocation size */
 static unsigned char *vp_exact(size_t k)
 {
 	unsigned char *p;
@@ -353,245 +180,91 @@ static unsigned char *vp_exact(size_t k)
 static int vp_cleanups;
 static void vp_ref_cleanup(const void *data, size_t datalen, void *extra) { (void)data; (void)datalen; (void)extra; vp_cleanups++; }
 
-static unsigned char W[VP_L];      /* the arbitrary bytes (ghost copy: the oracle reads this) */
-static size_t WL, WK;              /* total length, split position */
-
-/* after a decoder consumed `used` bytes: exactly W[used..WL) is left, in order */
-static void check_rest(size_t used)
-{
-	size_t i;
-	vp_evb_check(B, "");
-	VP_ASSERT(evbuffer_get_length(B) == WL - used, "C42: decoder did not consume exactly one item");
-	i = vp_size();
-	if (i < WL - used)
-		VP_ASSERT(vp_evb_byte(B, i) == W[used + i], "C42: bytes after the consumed item changed");
-}
-
-#ifdef DEC
-void harness_decode(void)
+/* B := W[0..WL) in two exact-size reference chains W[0..k) W[k..WL) (k concrete) */
+static void tb_mkdec(size_t k)
 {
 	unsigned char *a1, *a2; size_t i;
-	ev_uint32_t rt = 0, rl = 0; int rh;
+	B = tb_new();
+	if (k > 0) {
+		a1 = vp_exact(k);
+		for (i = 0; i < VP_L; i++) if (i < k) a1[i] = W[i];
+		__CPROVER_assume(evbuffer_add_reference(B, a1, k, vp_ref_cleanup, NULL) == 0);
+	}
+	if (WL - k > 0) {
+		a2 = vp_exact(WL - k);
+		for (i = 0; i < VP_L; i++) if (i < WL - k) a2[i] = W[k + i];
+		__CPROVER_assume(evbuffer_add_reference(B, a2, WL - k, vp_ref_cleanup, NULL) == 0);
+	}
+}
 
-#ifdef VP_WL            /* concrete length and split (enumerated by the driver) */
-	WL = VP_WL; WK = VP_WK;
+#ifndef VP_WL
+#error "VP_WL (concrete length of the byte string) required"
+#endif
+void harness_decode(void)
+{
+	size_t k, c, cls;
+	(void)c; (void)cls;
+	WL = VP_WL;
+#ifdef VP_WK
+	WK = VP_WK;
 #else
-	WL = vp_range(0, VP_L); WK = vp_range(0, VP_L);
-	__CPROVER_assume(WK <= WL);
+	WK = vp_range(0, VP_WL);
 #endif
 	vp_bytes(W, VP_L);
 #ifdef KF_EXCLUDE_TAG6
-	/* predicate of the known finding: five continuation bytes of a tag still admissible at the fifth, then more data */
-#define KF_TAG6 (WL >= 6 && (W[0] & 0x80) && (W[1] & 0x80) && (W[2] & 0x80) && (W[3] & 0x80) && (W[4] & 0x80) && (W[4] & 0x7f) <= 15)
 	__CPROVER_assume(!KF_TAG6);
 #endif
 #ifdef KF_ONLY_TAG6
-#define KF_TAG6 (WL >= 6 && (W[0] & 0x80) && (W[1] & 0x80) && (W[2] & 0x80) && (W[3] & 0x80) && (W[4] & 0x80) && (W[4] & 0x7f) <= 15)
 	__CPROVER_assume(KF_TAG6);
 #endif
-	B = evbuffer_new();
-	__CPROVER_assume(B != NULL);
-	if (WK > 0) {
-		a1 = vp_exact(WK);
-		for (i = 0; i < VP_L; i++) if (i < WK) a1[i] = W[i];
-		__CPROVER_assume(evbuffer_add_reference(B, a1, WK, vp_ref_cleanup, NULL) == 0);
-	}
-	if (WL - WK > 0) {
-		a2 = vp_exact(WL - WK);
-		for (i = 0; i < VP_L; i++) if (i < WL - WK) a2[i] = W[WK + i];
-		__CPROVER_assume(evbuffer_add_reference(B, a2, WL - WK, vp_ref_cleanup, NULL) == 0);
-	}
-	rh = tagref_dec_header(W, WL, &rt, &rl);
-
-#if DEC == DEC_INT || DEC == DEC_INT64
-	{
-		size_t k;
-#if DEC == DEC_INT
-		ev_uint32_t o = 0; int r; int maxn = 8;
-#else
-		ev_uint64_t o = 0; int r; int maxn = 16;
+	dec_ref();
+	for (k = 0; k <= VP_WL; k++) {
+		if (WK != k) continue;
+#ifdef VP_SINGLE
+		if (k != 0 && k != VP_WL) { __CPROVER_assume(0); }
 #endif
-		ev_uint64_t rv = 0; int rn = tagref_dec_int(W, WL, maxn, &rv);
-		/* classes: not a well-formed integer (k == 0: the decoder may look at 1 byte) / encoded size k */
-		for (k = 0; k <= 9; k++) {
-			if ((rn < 0 ? 0 : (size_t)rn) != k) continue;
-#ifdef VP_ONLYK
-			if (k != VP_ONLYK) continue;
+#ifdef VP_WK            /* split position enumerated by the driver */
+		if (k != VP_WK) continue;
 #endif
-			vp_cands(1, k, 0, 0, 0, 0, 2);
-#if DEC == DEC_INT
-			r = evtag_decode_int(&o, B);
-#else
-			r = evtag_decode_int64(&o, B);
-#endif
-			VP_ASSERT(r == 0 || r == -1, "C42: evtag_decode_int returns 0 or -1");
-			if (r == 0) {
-				VP_ASSERT(rn > 0, "C42: integer decoder accepted bytes that are not a well-formed integer");
-				VP_ASSERT((ev_uint64_t)o == rv, "C42: integer decoder returned a wrong value");
-				check_rest((size_t)rn);
-				VP_WITNESS("C42 integer decoded");
-			} else {
-				VP_WITNESS("C42 integer rejected");
-			}
+#if DEC == DEC_PEEK
+		tb_mkdec(k);
+		vp_predict(&vp_p_pullup, 1, VP_WL < 5 ? VP_WL : 5, 0, 0, 0);
+		vp_predict(&vp_p_drain, 0, 0, 0, 0, 0);
+		dec_run();
+		return;
+#elif DEC == DEC_TAG
+		cls = r_a > 0 ? (size_t)r_a : 0;
+		for (c = 0; c <= 5; c++) {
+			if (cls != c) continue;
+			tb_mkdec(k);
+			vp_predict(&vp_p_pullup, 1, VP_WL < 5 ? VP_WL : 5, 0, 0, 0);
+			vp_predict(&vp_p_drain, c ? 1 : 0, c, 0, 0, 0);
+			dec_run();
 			return;
 		}
-		VP_ASSERT(0, "harness: input outside every size class");
-	}
-#elif DEC == DEC_TAG || DEC == DEC_PEEK
-	{
-		ev_uint32_t o = 0, rv = 0; int rn = tagref_dec_tag(W, WL, &rv);
-#if DEC == DEC_TAG
-		int r = evtag_decode_tag(&o, B);
+#elif DEC == DEC_INTI || DEC == DEC_INT64I || DEC == DEC_INT || DEC == DEC_INT64
+		{
+			ev_uint64_t rv; int rn;
+#if DEC == DEC_INTI || DEC == DEC_INT
+			rn = VP_OFF <= VP_WL ? tagref_dec_int(W + VP_OFF, VP_WL - VP_OFF, 8, &rv) : -1;
 #else
-		int r = evtag_peek(B, &o);
+			rn = VP_OFF <= VP_WL ? tagref_dec_int(W + VP_OFF, VP_WL - VP_OFF, 16, &rv) : -1;
 #endif
-		if (r != -1) {
-			VP_ASSERT(rn > 0, "C42: tag decoder accepted bytes that are not a well-formed tag");
-			VP_ASSERT(r == rn, "C42: tag decoder returned a wrong size");
-			VP_ASSERT(o == rv, "C42: tag decoder returned a wrong tag");
-			check_rest(DEC == DEC_TAG ? (size_t)rn : 0);
-			VP_WITNESS("C42 tag decoded");
-		} else {
-			VP_WITNESS("C42 tag rejected");
+			cls = rn > 0 ? (size_t)rn : 0;
 		}
-	}
-#elif DEC == DEC_PEEK_LENGTH || DEC == DEC_PAYLOAD_LENGTH
-	{
-		/* these two do not require the payload to be present yet: header = tag + length */
-		ev_uint32_t o = 0, t2 = 0; ev_uint64_t l2 = 0; int a, b = -1;
-#if DEC == DEC_PEEK_LENGTH
-		int r = evtag_peek_length(B, &o);
+		for (c = 0; c <= 9; c++) {
+			if (cls != c) continue;
+			tb_mkdec(k);
+			/* a rejected input (c == 0) may have had its first byte looked at */
+			vp_predict(&vp_p_pullup, c ? 2 : 1, VP_OFF + 1, VP_OFF + c, 0, 0);
+			vp_predict(&vp_p_drain, c ? 1 : 0, c, 0, 0, 0);
+			dec_run();
+			return;
+		}
 #else
-		int r = evtag_payload_length(B, &o);
+#error "this decoder runs over the contract model (C42_tagmodel.c)"
 #endif
-		a = tagref_dec_tag(W, WL, &t2);
-		if (a > 0) b = tagref_dec_int(W + a, WL - (size_t)a, 8, &l2);
-		VP_ASSERT(r == 0 || r == -1, "C42: length peekers return 0 or -1");
-		if (r == 0) {
-			VP_ASSERT(a > 0 && b > 0, "C42: length peeker accepted bytes that are not a well-formed header");
-#if DEC == DEC_PEEK_LENGTH
-			VP_ASSERT(o == (ev_uint32_t)(l2 + (ev_uint64_t)a + (ev_uint64_t)b), "C42: evtag_peek_length returned a wrong total length");
-#else
-			VP_ASSERT(o == (ev_uint32_t)l2, "C42: evtag_payload_length returned a wrong length");
-#endif
-			check_rest(0);
-			VP_WITNESS("C42 header peeked");
-		} else {
-			VP_WITNESS("C42 header rejected");
-		}
 	}
-#elif DEC == DEC_HEADER
-	{
-		ev_uint32_t o = 0; int r = evtag_unmarshal_header(B, &o);
-		if (r != -1) {
-			VP_ASSERT(rh > 0, "C42: evtag_unmarshal_header accepted bytes that are not a well-formed item");
-			VP_ASSERT(o == rt && (ev_uint32_t)r == rl, "C42: evtag_unmarshal_header returned a wrong tag or length");
-			check_rest((size_t)rh);
-			VP_WITNESS("C42 header decoded");
-		} else {
-			VP_WITNESS("C42 header rejected");
-		}
-	}
-#elif DEC == DEC_CONSUME
-	{
-		int r = evtag_consume(B);
-		VP_ASSERT(r == 0 || r == -1, "C42: evtag_consume returns 0 or -1");
-		if (r == 0) {
-			VP_ASSERT(rh > 0, "C42: evtag_consume accepted bytes that are not a well-formed item");
-			check_rest((size_t)rh + rl);
-			VP_WITNESS("C42 item consumed");
-		} else {
-			VP_WITNESS("C42 item rejected");
-		}
-	}
-#elif DEC == DEC_UNMARSHAL
-	{
-		ev_uint32_t o = 0; struct evbuffer *dst = evbuffer_new(); int r;
-		__CPROVER_assume(dst != NULL);
-		r = evtag_unmarshal(B, &o, dst);
-		if (r != -1) {
-			VP_ASSERT(rh > 0, "C42: evtag_unmarshal accepted bytes that are not a well-formed item");
-			VP_ASSERT(o == rt && (ev_uint32_t)r == rl, "C42: evtag_unmarshal returned a wrong tag or length");
-			VP_ASSERT(evbuffer_get_length(dst) == rl, "C42: evtag_unmarshal delivered a different number of bytes");
-			i = vp_size();
-			if (i < rl) VP_ASSERT(vp_evb_byte(dst, i) == W[(size_t)rh + i], "C42: evtag_unmarshal delivered wrong payload bytes");
-			check_rest((size_t)rh + rl);
-			VP_WITNESS("C42 item unmarshalled");
-		} else {
-			VP_WITNESS("C42 item rejected");
-		}
-	}
-#elif DEC == DEC_UINT || DEC == DEC_UINT64
-	{
-		ev_uint32_t need = vp_u32(); ev_uint64_t rv = 0; int rn = -1;
-#if DEC == DEC_UINT
-		ev_uint32_t o = 0; int r = evtag_unmarshal_int(B, need, &o); int maxn = 8;
-#else
-		ev_uint64_t o = 0; int r = evtag_unmarshal_int64(B, need, &o); int maxn = 16;
-#endif
-		if (rh > 0) rn = tagref_dec_int(W + rh, rl, maxn, &rv);
-		if (r != -1) {
-			VP_ASSERT(rh > 0 && rt == need, "C42: evtag_unmarshal_int accepted bytes that are not a well-formed item with the requested tag");
-			VP_ASSERT(rn > 0, "C42: evtag_unmarshal_int accepted a payload that is not a well-formed integer");
-			VP_ASSERT(r == rn && (ev_uint64_t)o == rv, "C42: evtag_unmarshal_int returned a wrong value");
-			check_rest((size_t)rh + rl);
-			VP_WITNESS("C42 integer item unmarshalled");
-		} else {
-			VP_WITNESS("C42 integer item rejected");
-		}
-	}
-#elif DEC == DEC_FIXED
-	{
-		ev_uint32_t need = vp_u32(); unsigned char out[VP_L]; size_t want = vp_range(0, VP_L);
-		int r = evtag_unmarshal_fixed(B, need, out, want);
-		VP_ASSERT(r == 0 || r == -1, "C42: evtag_unmarshal_fixed returns 0 or -1");
-		if (r == 0) {
-			VP_ASSERT(rh > 0 && rt == need && rl == want, "C42: evtag_unmarshal_fixed accepted bytes that are not a well-formed item of the requested tag and length");
-			i = vp_size();
-			if (i < want) VP_ASSERT(out[i] == W[(size_t)rh + i], "C42: evtag_unmarshal_fixed delivered wrong payload bytes");
-			check_rest((size_t)rh + rl);
-			VP_WITNESS("C42 fixed item unmarshalled");
-		} else {
-			VP_WITNESS("C42 fixed item rejected");
-		}
-	}
-#elif DEC == DEC_STRING
-	{
-		ev_uint32_t need = vp_u32(); char *s = NULL;
-		int r = evtag_unmarshal_string(B, need, &s);
-		VP_ASSERT(r == 0 || r == -1, "C42: evtag_unmarshal_string returns 0 or -1");
-		if (r == 0) {
-			VP_ASSERT(rh > 0 && rt == need, "C42: evtag_unmarshal_string accepted bytes that are not a well-formed item with the requested tag");
-			VP_ASSERT(s != NULL && s[rl] == 0, "C42: evtag_unmarshal_string result is not NUL-terminated at the item length");
-			i = vp_size();
-			if (i < rl) VP_ASSERT((unsigned char)s[i] == W[(size_t)rh + i], "C42: evtag_unmarshal_string delivered wrong payload bytes");
-			check_rest((size_t)rh + rl);
-			VP_WITNESS("C42 string item unmarshalled");
-		} else {
-			VP_WITNESS("C42 string item rejected");
-		}
-	}
-#elif DEC == DEC_TIMEVAL
-	{
-		ev_uint32_t need = vp_u32(); struct timeval tv; ev_uint64_t s = 0, u = 0; int n1 = -1, n2 = -1;
-		int r;
-		tv.tv_sec = 0; tv.tv_usec = 0;
-		r = evtag_unmarshal_timeval(B, need, &tv);
-		if (rh > 0) n1 = tagref_dec_int(W + rh, rl, 8, &s);
-		if (n1 > 0) n2 = tagref_dec_int(W + rh + n1, rl - (size_t)n1, 8, &u);
-		VP_ASSERT(r == 0 || r == -1, "C42: evtag_unmarshal_timeval returns 0 or -1");
-		if (r == 0) {
-			VP_ASSERT(rh > 0 && rt == need, "C42: evtag_unmarshal_timeval accepted bytes that are not a well-formed item with the requested tag");
-			VP_ASSERT(n1 > 0 && n2 > 0, "C42: evtag_unmarshal_timeval accepted a payload that is not two well-formed integers");
-			VP_ASSERT((ev_uint64_t)tv.tv_sec == s && (ev_uint64_t)tv.tv_usec == u, "C42: evtag_unmarshal_timeval returned wrong values");
-			check_rest((size_t)rh + rl);
-			VP_WITNESS("C42 timeval item unmarshalled");
-		} else {
-			VP_WITNESS("C42 timeval item rejected");
-		}
-	}
-#else
-#error "unknown DEC"
-#endif
+	VP_ASSERT(0, "harness: input outside every size class");
 }
-#endif /* DEC */
+#endif
